@@ -18,8 +18,9 @@ What is proved here (model M4):
 * likewise the gauges for connections, objects and services, the equal size of the two views of the object
   and of the service registry, unique keys and cookie freshness (`registry_gauges_all_histories`);
 * run-loop exit condition (`finished_iff`), broker shutdown queues every connection for removal with
-  a Shutdown message and sets the flag (`broker_shutdown_queues_all`), idle shutdown only sets its
-  flag (`idle_shutdown_sets_flag`).
+  a Shutdown message and sets the flag (`broker_shutdown_queues_all`), and the turn that handles it ends with no
+  connection left, nothing deferred and the exit condition true (`broker_shutdown_completes`, from any state); idle
+  shutdown only sets its flag (`idle_shutdown_sets_flag`).
 * in every reachable state (fewer than 2³² calls pending at a time) a call whose caller is no longer connected has
   been ended on the caller's side: it is marked aborted, so nothing will ever be delivered for it
   (`calls_of_a_removed_connection_are_ended`, from the cross-reference invariant of C02); in particular with no
@@ -42,6 +43,7 @@ import Aldrin.Lemmas.Broker.Xref2
 import Aldrin.Lemmas.Broker.Reg
 import Aldrin.Lemmas.Broker.Own
 import Aldrin.Lemmas.Broker.Callee
+import Aldrin.Lemmas.Broker.Shutdown
 
 namespace Aldrin.Broker
 open Generated
@@ -89,6 +91,14 @@ theorem broker_shutdown_queues_all (s s' : St) (h : handleEvent s .shutdownBroke
   intro p hp
   simp only [St.setWShutdownNow_w_removeConns, St.setWRemoveConns_w_removeConns, List.mem_append, List.mem_reverse, List.mem_map]
   exact Or.inl ⟨p, hp, rfl⟩
+
+/-- **A broker shutdown removes every connection and ends `Broker::run`**: the turn that handles `ShutdownBroker`, from
+any state whatever, ends with no connection left, nothing deferred, and the exit condition of the run loop true.
+(Every connection is queued for removal with a `Shutdown` message; the work loop handles removals first and each
+removal takes its connection out of the map and keeps the rest of the queue, `Lemmas/Broker/Shutdown.lean`.) -/
+theorem broker_shutdown_completes {b b' : Broker} {w w' : Work} {out : List Out}
+    (hr : step b w .shutdownBroker = .ok (b', w', out)) : b'.conns = [] ∧ w'.idle ∧ finished b' w' = true :=
+  shutdownBroker_completes hr
 
 theorem idle_shutdown_sets_flag (s s' : St) (h : handleEvent s .shutdownIdle = .ok s') :
     s'.w.shutdownIdle = true ∧ s'.b = s.b ∧ s'.out = s.out := by
